@@ -406,6 +406,25 @@ pub(crate) fn format_cycle_path(
     path.join(" -> ")
 }
 
+/// Verification hook (compiled only with `--cfg rsactor_verif`): read-only snapshot of the
+/// wait-for graph as `(waiting actor id, target actor id)` pairs.
+#[cfg(all(rsactor_verif, feature = "deadlock-detection"))]
+#[doc(hidden)]
+pub fn __verif_wait_for_edges() -> Vec<(u64, u64)> {
+    match wait_for_graph().lock() {
+        Ok(g) => g.iter().map(|(k, v)| (*k, v.id)).collect(),
+        Err(p) => p.into_inner().iter().map(|(k, v)| (*k, v.id)).collect(),
+    }
+}
+
+/// Verification hook (compiled only with `--cfg rsactor_verif`): whether the wait-for graph's
+/// mutex is poisoned.
+#[cfg(all(rsactor_verif, feature = "deadlock-detection"))]
+#[doc(hidden)]
+pub fn __verif_wait_for_poisoned() -> bool {
+    wait_for_graph().is_poisoned()
+}
+
 /// Type-erased payload handler trait for dynamic message dispatch.
 ///
 /// This trait allows different message types to be handled uniformly within the actor system,
